@@ -319,7 +319,7 @@ Definition frame_of (k : pcase) : xcase :=
   {| xc_cfgs := xc_cfgs f; xc_env := xc_env f; xc_keys := xc_keys f; xc_bals := xc_bals f;
      xc_nonces := xc_nonces f; xc_pre := xc_pre f; xc_txs := map2 with_invalid (xc_txs f) vs;
      xc_recs := xc_recs f; xc_okeys := xc_okeys f; xc_obals := xc_obals f; xc_ononces := xc_ononces f;
-     xc_ocnt := xc_ocnt f; xc_other := xc_other f; xc_warm := xc_warm f; xc_meta := xc_meta f |}.
+     xc_ocnt := xc_ocnt f; xc_other := xc_other f; xc_warm := xc_warm f; xc_posted := xc_posted f; xc_meta := xc_meta f |}.
 
 (** the property on the implementation's trace: a SUCCESS receipt of an IBTP transaction implies
     a verified proof *)
